@@ -9,7 +9,8 @@
                 css_parser.ser (identity), its .prefs (an abstract preference vector; bit 0 of the
                 code = prefs.indentSpecificities), ._level, len(._selectors), ._selectorlevel  (serialize.py)
      dx         cssproductions.PRODUCTIONS contains the DXImageTransform production (settings.set)
-     parsers    the CSSParser objects the caller has constructed: (log.raiseExceptions at construction,
+     parsers    the CSSParser objects the caller has constructed: (the slot self.__globalRaising, where
+                a tree keeps the flag on the object: written at construction and/or at parse entry;
                 the raiseExceptions argument)  -- caller-owned, not a library global
 
    What a call *does* inside its bracket is not modelled: a body is an arbitrary strategy
@@ -25,6 +26,8 @@ Record sites := mkSites {
   parse_restores_normal  : bool;  (* ... write it back before a normal return                              *)
   parse_restores_exc     : bool;  (* ... and in a finally clause that covers the whole body                *)
   parse_saves_at_entry   : bool;  (* the value written back was read on entry (false: in CSSParser.__init__) *)
+  parse_saved_in_frame   : bool;  (* ... and is kept in the frame of the running parse (returned by
+                                     __parseSetting(True) and handed back), not on the parser object *)
   pp_clears_pushed       : bool;  (* ProdParser.__init__ (clear=True at every call site): tokenizer.clear()  *)
   pp_clears_saved        : bool;  (* ProdParser.__init__: del savedTokens[:]                                 *)
   comb_restores_normal   : bool;  (* csscombine: setSerializer(oldser) before the normal return              *)
@@ -34,13 +37,13 @@ Record sites := mkSites {
 }.
 
 Definition well_bracketed (st : sites) : bool :=
-  parse_restores_normal st && parse_restores_exc st && parse_saves_at_entry st &&
+  parse_restores_normal st && parse_restores_exc st && parse_saves_at_entry st && parse_saved_in_frame st &&
   pp_clears_pushed st && pp_clears_saved st &&
   comb_restores_normal st && comb_restores_exc st && level_restored_exc st && memo_guarded st.
 
 (* the tree as pinned (before the fix: commits of C06), transcribed by hand; used for the _refuted theorems *)
 Definition pinned : sites :=
-  mkSites true true false false true false true false true true.
+  mkSites true true false false false true false true false true true.
 
 (* -------------------------------------------------------------------------------- state *)
 Record G := mkG {
@@ -81,22 +84,43 @@ Inductive ev :=
                                 memo and _selectorlevel by (m, sl)                                              *)
 | EvTok.                     (* Tokenizer(): reads PRODUCTIONS / the compiled-production cache                 *)
 
+Inductive term := TRet | TExc | TFuel | TUninit | TNestSet.
+(* TFuel: the body did not stop within the fuel; TUninit: the body touched the token stash / push-back
+   list before constructing a ProdParser -- no code path does (ProdParser.parse is a method, the shared
+   tokenizer is only used from ProdParser._texttotokens); the harness checks it on every traced call.
+   TNestSet: a callback changed one of the caller's settings (excluded: settings are changed by the
+   caller between calls, not from inside a fetcher / replacer / log handler). *)
+
 Inductive obs :=
 | ONone
 | OTok (t : option N)
 | OFlag (b : bool)
 | OSer (i p : N) (lv sl : Z) (mm : option N)
-| ODx (b : bool).
+| ODx (b : bool)
+| ONest (r : list (list obs * term)).   (* what a nested public call made from a callback returned *)
 
-Inductive action := Do (e : ev) | Ret | Exc | ExcInRule.
-(* ExcInRule: an exception that propagates out of do_CSSStyleRule between  _level += 1  and  _level -= 1 *)
+(* A body may call back into the public API (a fetcher, a replaceUrls replacer, a log handler that
+   parses): [Nest c] runs the whole bracket of c inside the running one, to any depth.  Bodies are
+   strategies: they see every observation made so far. *)
+Inductive action :=
+| Do (e : ev) | Ret | Exc
+| ExcInRule                        (* exception propagating out of do_CSSStyleRule between _level += 1 and -= 1 *)
+| Nest (c : call)
+with call :=
+| CSetRaising (b : bool)            (* css_parser.log.raiseExceptions = b                            *)
+| CSetSer (i p : N)                 (* css_parser.setSerializer(CSSSerializer(prefs p))  (a fresh object) *)
+| CSetPrefs (p : N)                 (* css_parser.ser.prefs.<x> = v / useMinified() / useDefaults()   *)
+| CSetDX                            (* settings.set('DXImageTransform.Microsoft', True)               *)
+| CNewParser (praise : bool)        (* CSSParser(raiseExceptions=praise)                              *)
+| CParse (who : option nat) (b : list obs -> action)
+    (* parseString/parseStyle (parseFile, parseUrl delegate) of the who-th parser object; None = the
+       module-level functions, which construct CSSParser() on entry *)
+| CCombine (fresh fp : N) (b1 bm b2 : list obs -> action)
+    (* script.csscombine: parse (b1) with an internal CSSParser(), resolveImports + encoding (bm),
+       then serialisation (b2) under a fresh serializer (fresh, fp) swapped in for the caller's *)
+| CPlain (b : list obs -> action).  (* every other entry point: constructors, text setters, append*, getters *)
 
 Definition body := list obs -> action.
-
-Inductive term := TRet | TExc | TFuel | TUninit.
-(* TFuel: the body did not stop within the fuel; TUninit: the body touched the token stash / push-back
-   list before constructing a ProdParser -- no code path does (ProdParser.parse is a method, the shared
-   tokenizer is only used from ProdParser._texttotokens); the harness checks it on every traced call. *)
 
 Definition reads_memo (st : sites) (g : G) : bool := indent_pref (prefs g) || negb (memo_guarded st).
 
@@ -118,7 +142,53 @@ Definition do_ev (st : sites) (inited : bool) (e : ev) (g : G) : option (G * obs
   | EvTok => Some (g, ODx (dx g), inited)
   end.
 
-Fixpoint exec (st : sites) (b : body) (fuel : nat) (inited : bool) (os : list obs) (g : G)
+
+Definition is_setter (c : call) : bool :=
+  match c with CSetRaising _ | CSetSer _ _ | CSetPrefs _ | CSetDX | CNewParser _ => true | _ => false end.
+
+Definition res := list (list obs * term).
+
+Definition is_ret (t : term) : bool := match t with TRet => true | _ => false end.
+
+Fixpoint set_slot (n : nat) (v : bool) (ps : list (bool * bool)) : list (bool * bool) :=
+  match n, ps with
+  | O, (_, pr) :: r => (v, pr) :: r
+  | S k, p :: r => p :: set_slot k v r
+  | _, [] => []
+  end.
+Definition set_parsers (ps : list (bool * bool)) (g : G) : G :=
+  mkG (saved g) (pushed g) (raising g) (ser g) (prefs g) (level g) (memo g) (sellevel g) (dx g) ps.
+
+(* the parse bracket: parse.py CSSParser.parseString / parseStyle around a body, whose execution is
+   the argument [ex] (= exec with the remaining fuel).
+   The value written back at the end comes from
+     - the frame of this activation              (parse_saves_at_entry && parse_saved_in_frame)
+     - otherwise the parser object's slot self.__globalRaising, read when the parse ends; the slot is
+       written at construction (parse_saves_at_entry = false: the pinned tree) or on every entry
+       (parse_saves_at_entry = true, parse_saved_in_frame = false): a nested parse on the same object
+       then overwrites it.
+   who = None: the parser object is private to this activation (module-level functions, csscombine). *)
+Definition parse_bracket (st : sites) (who : option nat) (praise : bool)
+    (ex : G -> G * (list obs * term)) (g : G) : G * (list obs * term) :=
+  let entryflag := raising g in
+  let in_frame := parse_saves_at_entry st && parse_saved_in_frame st in
+  let g0 := match who with
+            | Some n => if parse_saves_at_entry st && negb (parse_saved_in_frame st)
+                        then set_parsers (set_slot n entryflag (parsers g)) g else g
+            | None => g
+            end in
+  let g1 := if parse_sets_flag st then set_raising praise g0 else g0 in
+  let '(g2, r) := ex g1 in
+  let restoreval := if in_frame then entryflag else
+                    match who with
+                    | Some n => match nth_error (parsers g2) n with Some p => fst p | None => entryflag end
+                    | None => entryflag
+                    end in
+  let restore := if is_ret (snd r) then parse_restores_normal st else parse_restores_exc st in
+  (if restore then set_raising restoreval g2 else g2, r).
+
+(* exec: one body; step: one call (bracket + bodies).  One fuel bounds the whole activation tree. *)
+Fixpoint exec (st : sites) (fuel : nat) (b : body) (inited : bool) (os : list obs) (g : G) {struct fuel}
   : G * (list obs * term) :=
   match fuel with
   | O => (g, (os, TFuel))
@@ -130,71 +200,47 @@ Fixpoint exec (st : sites) (b : body) (fuel : nat) (inited : bool) (os : list ob
       | Do e =>
           match do_ev st inited e g with
           | None => (g, (os, TUninit))
-          | Some (g', o, i') => exec st b f i' (os ++ [o]) g'
+          | Some (g', o, i') => exec st f b i' (os ++ [o]) g'
           end
+      | Nest c =>
+          if is_setter c then (g, (os, TNestSet)) else
+          let '(g', r) := step st f c g in exec st f b inited (os ++ [ONest r]) g'
       end
-  end.
-
-(* -------------------------------------------------------------------------------- calls *)
-Inductive call :=
-| CSetRaising (b : bool)            (* css_parser.log.raiseExceptions = b                            *)
-| CSetSer (i p : N)                 (* css_parser.setSerializer(CSSSerializer(prefs p))  (a fresh object) *)
-| CSetPrefs (p : N)                 (* css_parser.ser.prefs.<x> = v / useMinified() / useDefaults()   *)
-| CSetDX                            (* settings.set('DXImageTransform.Microsoft', True)               *)
-| CNewParser (praise : bool)        (* CSSParser(raiseExceptions=praise)                              *)
-| CParse (who : option nat) (b : body) (fuel : nat)
-    (* parseString/parseStyle (parseFile, parseUrl delegate) of the who-th parser object; None = the
-       module-level functions, which construct CSSParser() on entry *)
-| CCombine (fresh fp : N) (b1 bm b2 : body) (fuel : nat)
-    (* script.csscombine: parse (b1) with an internal CSSParser(), resolveImports + encoding (bm),
-       then serialisation (b2) under a fresh serializer (fresh, fp) swapped in for the caller's *)
-| CPlain (b : body) (fuel : nat).   (* every other entry point: constructors, text setters, append*, getters *)
-
-Definition is_setter (c : call) : bool :=
-  match c with CSetRaising _ | CSetSer _ _ | CSetPrefs _ | CSetDX | CNewParser _ => true | _ => false end.
-
-Definition res := list (list obs * term).
-
-Definition is_ret (t : term) : bool := match t with TRet => true | _ => false end.
-
-(* the parse bracket: parse.py CSSParser.parseString / parseStyle around body b *)
-Definition parse_bracket (st : sites) (p : bool * bool) (b : body) (fuel : nat) (g : G) : G * (list obs * term) :=
-  let entryflag := raising g in
-  let restoreval := if parse_saves_at_entry st then entryflag else fst p in
-  let g1 := if parse_sets_flag st then set_raising (snd p) g else g in
-  let '(g2, r) := exec st b fuel false [] g1 in
-  let restore := if is_ret (snd r) then parse_restores_normal st else parse_restores_exc st in
-  (if restore then set_raising restoreval g2 else g2, r).
-
-Definition step (st : sites) (c : call) (g : G) : G * res :=
+  end
+with step (st : sites) (fuel : nat) (c : call) (g : G) {struct fuel} : G * res :=
+  match fuel with
+  | O => (g, [([], TFuel)])
+  | S f =>
   match c with
   | CSetRaising b => (set_raising b g, [])
   | CSetSer i p => (set_ser i p 0 0 0 g, [])
   | CSetPrefs p => (set_prefs p g, [])
   | CSetDX => (set_dx g, [])
   | CNewParser praise => (add_parser (raising g, praise) g, [])
-  | CParse who b fuel =>
+  | CParse who b =>
       match who with
-      | None => let '(g', r) := parse_bracket st (raising g, false) b fuel g in (g', [r])
+      | None => let '(g', r) := parse_bracket st None false (exec st f b false []) g in (g', [r])
       | Some n => match nth_error (parsers g) n with
-                  | Some p => let '(g', r) := parse_bracket st p b fuel g in (g', [r])
+                  | Some p => let '(g', r) := parse_bracket st (Some n) (snd p) (exec st f b false []) g in (g', [r])
                   | None => (g, [])          (* no such parser object: not a call *)
                   end
       end
-  | CCombine fresh fp b1 bm b2 fuel =>
-      let '(g1, r1) := parse_bracket st (raising g, false) b1 fuel g in
+  | CCombine fresh fp b1 bm b2 =>
+      let '(g1, r1) := parse_bracket st None false (exec st f b1 false []) g in
       if negb (is_ret (snd r1)) then (g1, [r1]) else
-      let '(g2, rm) := exec st bm fuel false [] g1 in
+      let '(g2, rm) := exec st f bm false [] g1 in
       if negb (is_ret (snd rm)) then (g2, [r1; rm]) else
       let g3 := set_ser fresh fp 0 0 0 g2 in
-      let '(g4, r2) := exec st b2 fuel false [] g3 in
+      let '(g4, r2) := exec st f b2 false [] g3 in
       let restore := if is_ret (snd r2) then comb_restores_normal st else comb_restores_exc st in
       (if restore then set_ser (ser g2) (prefs g2) (level g2) (memo g2) (sellevel g2) g4 else g4, [r1; rm; r2])
-  | CPlain b fuel => let '(g', r) := exec st b fuel false [] g in (g', [r])
+  | CPlain b => let '(g', r) := exec st f b false [] g in (g', [r])
+  end
   end.
 
-Definition run (st : sites) (hist : list call) (g : G) : G := fold_left (fun g c => fst (step st c g)) hist g.
-Definition result (st : sites) (g : G) (c : call) : res := snd (step st c g).
+Definition run (st : sites) (fuel : nat) (hist : list call) (g : G) : G :=
+  fold_left (fun g c => fst (step st fuel c g)) hist g.
+Definition result (st : sites) (fuel : nat) (g : G) (c : call) : res := snd (step st fuel c g).
 
 Definition setters (hist : list call) : list call := filter is_setter hist.
 
@@ -231,15 +277,16 @@ Definition eqb_G (a b : G) : bool :=
   N.eqb (memo a) (memo b) && Z.eqb (sellevel a) (sellevel b) && Bool.eqb (dx a) (dx b) &&
   Nat.eqb (length (parsers a)) (length (parsers b)).
 
-Definition term_code (t : term) : nat := match t with TRet => 0 | TExc => 1 | TFuel => 2 | TUninit => 3 end.
+Definition term_code (t : term) : nat :=
+  match t with TRet => 0 | TExc => 1 | TFuel => 2 | TUninit => 3 | TNestSet => 4 end.
 
 (* first index at which the model's post-state differs from the observed one, or a call whose replay
-   ends in TFuel/TUninit (the trace is not a behaviour of the model) *)
-Fixpoint first_disagreement (st : sites) (k : nat) (tr : list (call * G)) (g : G) : option nat :=
+   ends in TFuel/TUninit/TNestSet at top level (the trace is not a behaviour of the model) *)
+Fixpoint first_disagreement (st : sites) (fuel k : nat) (tr : list (call * G)) (g : G) : option nat :=
   match tr with
   | [] => None
   | (c, seen) :: tr' =>
-      let '(g', r) := step st c g in
+      let '(g', r) := step st fuel c g in
       if existsb (fun x => Nat.leb 2 (term_code (snd x))) r then Some k
-      else if eqb_G g' seen then first_disagreement st (S k) tr' g' else Some k
+      else if eqb_G g' seen then first_disagreement st fuel (S k) tr' g' else Some k
   end.
